@@ -265,7 +265,9 @@ class DepState:
     iterations: Tuple[int, ...]
 
     def required_increment_from(self, previous: 'DepState', factors: Sequence[float]) -> float:
-        assert len(self.iterations) == len(previous.iterations)
+        # The previous state of the register may stem from a hold at another nesting depth: the dependency key ignores
+        # trailing zero factors, i.e. loops that do not change the voltage. Only the common (outer) levels are compared:
+        # on the surplus levels of the deeper hold the factors are zero.
         assert len(self.iterations) == len(factors)
 
         increment = self.base - previous.base
